@@ -122,13 +122,13 @@ int main(int argc, char** argv) {
     if (!strcmp(table[i].id, G.prop)) {
       fprintf(G.log, "START\t%s\ttier=%s\tseed=%" PRIu64 "\tpart=%d/%d\tskip=%" PRId64 "\tmode=%s\n", G.prop,
               G.thorough ? "thorough" : "quick", G.seed, G.part, G.nparts, G.skip_upto, G.mode);
+      if (!strcmp(G.prop, "C15") && !G.valgrind) pristine_start();
 #if !VP_ASAN && !VP_TSAN
       // plain builds: glibc hands out recycled heap memory with whatever it held before, and M_PERTURB makes "whatever" a chosen byte
-      // (complemented for fresh blocks): a table whose constructor leaves a field unwritten then differs from run to run - the
-      // fresh-process reference of C15 uses another byte (see pristine_start)
+      // (complemented for fresh blocks): a table whose constructor leaves a field unwritten is then full of that byte here, and of
+      // the kernel's zeros in the fresh-process reference of C15 (forked just above, before the perturbation is switched on)
       if (!G.valgrind) mallopt(M_PERTURB, 0xA5 ^ (G.part & 0x1F));
 #endif
-      if (!strcmp(G.prop, "C15") && !G.valgrind) pristine_start();
       process_prelude();
       table[i].fn();
       finish_summary();
